@@ -84,6 +84,10 @@ def run_unit(unit, progress):
 
             prog = c07.diamond_program(random.Random(cs))
             inc("diamond_programs")
+        elif i % 8 == 2:
+            # another one: a task reached twice in one traversal is unblocked in between by a sibling's item.value()
+            prog = gen.revisit_program(random.Random(cs))
+            inc("revisit_programs")
         else:
             prog = gen.generate(cs, prof)
         if prog.get("shared"):
